@@ -6,6 +6,8 @@ use super::out::{self, esc};
 use super::rng::Rng;
 use super::search::{clear_tt, engine_search};
 
+static M2_VIOLATIONS: std::sync::atomic::AtomicU64 = std::sync::atomic::AtomicU64::new(0);
+
 const SEQUENCES: &[&[u8]] = &[&[3], &[4], &[3, 4], &[1, 2, 3], &[5, 3], &[4, 3], &[2, 4], &[6, 3, 4]];
 
 // ---------------------------------------------------------------------------
@@ -477,6 +479,13 @@ fn c12_position(p: &Pos, class: &Class, is_m1: bool, is_m2: bool, is_threat: boo
             if is_m2 {
                 out::count("C12.m2_checks", 1);
                 let horizon = max_sel.max(7);
+                // the solver is the expensive part: once a run has plenty of M2 witnesses, further
+                // non-key choices are only counted, not solved
+                let non_key = !class.m2.contains(&chosen);
+                if non_key && M2_VIOLATIONS.fetch_add(1, std::sync::atomic::Ordering::Relaxed) >= 16 {
+                    out::inconclusive("C12 M2: non-key move not analysed (this process has already analysed 16 of them)", 1);
+                    continue;
+                }
                 match judge_m2(p, class, &chosen, horizon) {
                     M2Verdict::KeyMove => out::count("C12.m2_key_move", 1),
                     M2Verdict::LongerMateKept(n) => {
